@@ -103,6 +103,7 @@ func runC12(c *Ctx) {
 		}
 		acc = append(acc, accPath{atoms: atomsOf(inlineBoolHelpers(pr.Facts, 2))})
 	})
+	binds := snapshotBinds()
 	if !okEnum || len(acc) == 0 {
 		c.Rule("C12.W1", "EXHAUSTIVE", "")
 		c.Undecided(name+"#decision-table", vf.Pos(), fmt.Sprintf("path enumeration failed (ok=%v, %d paths, %d accepting)", okEnum, total, len(acc)))
@@ -151,6 +152,7 @@ func runC12(c *Ctx) {
 
 	// ------------------------------------------------------------ W1
 	c.Rule("C12.W1", "EXHAUSTIVE", "on every accepting path of VerifyYouVersionState each of curr.{CurrVersion, NextVersion, NextApprovals, NextVoteBefore, NextSwitchOn} is pinned: it occurs in a true equality whose other side does not mention it, or in both a lower and an upper bound; while a proposal is live its NextVersion, NextVoteBefore and NextSwitchOn are pinned by equality with the parent's (conditions moved into boolean helpers are inlined)")
+	restoreBinds(binds)
 	c.Min(4)
 	type key struct{ class, field string }
 	unconstrained := map[key]int{}
@@ -241,6 +243,7 @@ func runC12(c *Ctx) {
 
 	// ------------------------------------------------------------ W2
 	c.Rule("C12.W2", "GATE", "on every accepting path on which curr.NextApprovals may equal prev.NextApprovals+1, a condition orders the round strictly below the end of the voting window (prev.NextVoteBefore, or curr.NextVoteBefore pinned equal to it)")
+	restoreBinds(binds)
 	c.Min(1)
 	nPlus, nBad := 0, 0
 	for _, p := range acc {
@@ -309,6 +312,7 @@ func runC12(c *Ctx) {
 
 	// ------------------------------------------------------------ W5
 	c.Rule("C12.W5", "GATE", "the verifier lets the version change, and lets a proposal live on at or after the end of its voting window, only on paths that established prev.NextApprovals ≥ UpgradeThreshold — for every parameter set, including a zero waiting period where the switch round coincides with the end of the window")
+	restoreBinds(binds)
 	c.Min(2)
 	{
 		hasQuorum := func(as []Atom) bool {
@@ -393,6 +397,7 @@ func runC12(c *Ctx) {
 
 	// ------------------------------------------------------------ W4
 	c.Rule("C12.W4", "SIBLINGS", "builder and verifier draw the quorum boundary at the same place: every comparison of an approval count with UpgradeThreshold in ProcessYouVersionState uses an operator the verifier uses too (normalised to approvals ⋄ threshold), the verifier's operators are exactly < (proposal failed) and ≥ (proposal survives), and so a header the honest builder produces at the end of the voting window is one the verifier accepts")
+	restoreBinds(binds)
 	c.Min(3)
 	{
 		thrOps := func(fn *ssa.Function) (map[token.Token]token.Pos, int) {
@@ -450,6 +455,7 @@ func runC12(c *Ctx) {
 
 	// ------------------------------------------------------------ W3
 	c.Rule("C12.W3", "SIBLINGS+GATE", "ProcessYouVersionState (with clearUpgradeState) writes exactly the five upgrade fields the verifier constrains; InsertChain reaches insertChain only after bc.VerifyYouVersionState returned nil; VersionForRoundWithParents looks the version up protocolRoundBack rounds back from a header's CurrVersion")
+	restoreBinds(binds)
 	c.Min(3)
 	pf := w.Fn("core", "", "ProcessYouVersionState")
 	cu := w.Fn("core", "", "clearUpgradeState")
